@@ -1,118 +1,135 @@
 """C07 -- dense linear solvers return true solutions or report failure.
-Engine S: TinyMatrixSolve<1,2,3> (vector and matrix right-hand sides, Cramer closed forms) and the LU path
-(LUDecomp::exe with partial pivoting + TinyMatrixSolveBase::back_substitute) for N = 1,2,3 are traced with path
-enumeration over the pivot / eps tests; Coq proves `returned true => A x = b` on every path and `det = 0 => failure`
-for the closed forms.  Engine H: a Gallina model of LUDecomp + back substitution for every N, executed on exact
-rationals, is compared with the real LUSolve / TinyMatrixSolve<1..8> / TinyMatrixInvert<1..6> on rational matrices."""
+Engine H, every size: a Gallina model of LUDecomp::exe (Crout, permutation vector, 0.1 cmax rule, eps test) + the permuted
+forward / back substitution (vector and tmatrix<N,M> right-hand sides) + TinyMatrixInvert over any field; Coq proves by
+loop invariants (P.A = L.U) `Some X -> A X = B`, `singular -> None`, `factorisation succeeded -> every right-hand side is
+solved`.  The Qc instance of the model is executed (vm_compute) and compared with the real LUSolve, TinyMatrixSolve<1..8>
+(vector and matrix right-hand sides), TinyMatrixInvert<1..6> and QRDecomp on rational matrices (pivot-forcing families
+that move every row, the last one included).
+Engine S: TinyMatrixSolve<1,2,3> (closed forms), the LU path and TinyMatrixInvert for N = 1,2,3 (every pivoting path),
+TinyMatrixSolveBase<4>::back_substitute alone for every permutation (matrix and vector right-hand sides), QRDecomp
+(Householder reflectors, N <= 3; full solve N <= 2) are traced from /repo and the Coq theorems re-checked on the
+regenerated trees."""
 import math, os, re
+from concurrent.futures import ThreadPoolExecutor
 from fractions import Fraction
 from vlib import guarded_main
 
-SUP = ["src/Exception/ContractViolation.cxx", "src/Math/LUException.cxx", "src/Math/MathException.cxx", "src/Exception/TFELException.cxx"]
+SUP = ["src/Exception/ContractViolation.cxx", "src/Math/LUException.cxx", "src/Math/MathException.cxx", "src/Exception/TFELException.cxx",
+       "src/Math/QRException.cxx"]
 DEFAULT_EPS = 100 * 2.2250738585072014e-308
 KEY_INV = "invert:decomp-failure-ignored"
+SOLVER = {"L": "LUSolve::exe", "T": "TinyMatrixSolve<N,double,false>::exe (tvector right-hand side)", "I": "TinyMatrixInvert<N,double>::exe",
+          "M": "TinyMatrixSolve<N,double,false>::exe (tmatrix<N,2> right-hand side)", "Q": "QRDecomp::exe + tq_product + back_substitute"}
+# families whose singularity is structural: the elimination is exact in binary64, the verdict must be `failure`
+STRUCT_SING = {"L": ("zerocol", "zerorow", "blocksing"), "T": ("zerocol", "zerorow", "blocksing"), "I": ("zerocol", "zerorow", "blocksing"),
+               "M": ("zerocol", "zerorow", "blocksing"), "Q": ("zerocol",)}
+FAMILIES = ["int", "diagdom", "zerodiag", "hilbert", "zerocol", "zerorow", "blocksing", "dyadic", "permdom", "lastrow"]
 
 
 def qz(fr):
     fr = Fraction(fr)
-    if fr.denominator == 1:
-        return "%d" % fr.numerator if fr.numerator >= 0 else "(%d)" % fr.numerator
-    return "(%d # %d)" % (fr.numerator, fr.denominator)
+    return "(Qmake %s %d)" % ("%d" % fr.numerator if fr.numerator >= 0 else "(%d)" % fr.numerator, fr.denominator)
 
 
 class Case:
-    def __init__(self, cid, kind, n, a, b, eps, family, strict_verdict=True):
-        self.id, self.kind, self.n, self.a, self.b, self.eps, self.family, self.strict = cid, kind, n, a, b, eps, family, strict_verdict
+    def __init__(self, cid, kind, n, a, b, eps, family):
+        self.id, self.kind, self.n, self.a, self.b, self.eps, self.family = cid, kind, n, a, b, eps, family
 
     def line(self):
         return " ".join([self.id, self.kind, str(self.n)] + [float(x).hex() for x in self.a] + [float(x).hex() for x in self.b] + [float(self.eps).hex()])
 
+    def rows(self):
+        n = self.n
+        return "[" + "; ".join("[" + "; ".join(qz(Fraction(float(self.a[n * i + j]))) for j in range(n)) + "]" for i in range(n)) + "]"
+
     def coq(self):
         n = self.n
-        rows = "[" + "; ".join("[" + "; ".join(qz(Fraction(float(self.a[n * i + j]))) for j in range(n)) + "]" for i in range(n)) + "]"
+        eps = qz(Fraction(float(self.eps)))
+        if self.kind == "M":
+            b = "[" + "; ".join("[" + "; ".join(qz(Fraction(float(self.b[2 * i + k]))) for k in range(2)) + "]" for i in range(n)) + "]"
+            return "(run_mat %d%%nat 2%%nat %s %s %s)" % (n, eps, self.rows(), b)
         b = "[" + "; ".join(qz(Fraction(float(x))) for x in self.b) + "]"
-        f = "run_inv" if self.kind == "I" else "run_eps"
-        return "(%s %d%%nat %s %s %s)" % (f, n, qz(Fraction(float(self.eps))), rows, b)
+        # the pivot tests of back_substitute (run_eps) cannot fire once the factorisation succeeded (theorem
+        # C07_lu_general_total): run_eps = run_lus, one evaluation serves LUSolve, TinyMatrixSolve and the QR comparison
+        f = {"I": "run_inv", "T": "run_eps", "L": "run_eps", "Q": "run_eps"}[self.kind]
+        return "(%s %d%%nat %s %s %s)" % (f, n, eps, self.rows(), b)
 
     def json(self):
-        return {"id": self.id, "solver": {"L": "LUSolve::exe", "T": "TinyMatrixSolve<N,double,false>::exe", "I": "TinyMatrixInvert<N,double>::exe"}[self.kind],
-                "N": self.n, "A_row_major": [float(x) for x in self.a], "b": [float(x) for x in self.b], "eps": float(self.eps),
+        return {"id": self.id, "solver": SOLVER[self.kind], "N": self.n, "A_row_major": [float(x) for x in self.a],
+                "b" + ("_row_major_N_x_2" if self.kind == "M" else ""): [float(x) for x in self.b], "eps": float(self.eps),
                 "family": self.family, "driver_line": self.line(), "how": "props/C07/driver.cxx <file containing driver_line>"}
+
+
+def gen_matrix(rng, fam, n):
+    a = [[float(rng.randint(-4, 4)) for _ in range(n)] for _ in range(n)]
+    if fam == "diagdom":
+        for i in range(n):
+            a[i][i] = float(4 * n + rng.randint(1, 3)) * rng.choice([-1, 1])
+    elif fam == "zerodiag":
+        for i in range(n):
+            a[i][i] = 0.0
+    elif fam == "hilbert":
+        if n > 5:
+            return None
+        a = [[1.0 / (i + j + 1) for j in range(n)] for i in range(n)]
+    elif fam == "zerocol":
+        k = rng.randrange(n)
+        for i in range(n):
+            a[i][k] = 0.0
+    elif fam == "zerorow":
+        k = rng.randrange(n)
+        a[k] = [0.0] * n
+    elif fam == "blocksing":
+        if n < 2:
+            return None
+        a = [[0.0] * n for _ in range(n)]
+        for i in range(n):
+            a[i][i] = 1.0
+        a[0][0], a[0][1], a[1][0], a[1][1] = 1.0, 2.0, 2.0, 4.0
+    elif fam == "dyadic":
+        a = [[rng.randint(-8, 8) / 4.0 for _ in range(n)] for _ in range(n)]
+    elif fam in ("permdom", "lastrow"):
+        # rows of a strongly diagonally dominant matrix in a random order: partial pivoting has to undo the shuffle, every
+        # row moves; "lastrow": the shuffle moves the last row for sure (a cyclic shift)
+        if n < 2:
+            return None
+        d = [[float(rng.randint(-3, 3)) for _ in range(n)] for _ in range(n)]
+        for i in range(n):
+            d[i][i] = float(40 * n + rng.randint(1, 9)) * rng.choice([-1, 1])
+        if fam == "lastrow":
+            s = rng.randrange(1, n)
+            perm = [(i + s) % n for i in range(n)]
+        else:
+            perm = list(range(n))
+            rng.shuffle(perm)
+        a = [d[perm[i]] for i in range(n)]
+    return a
 
 
 def gen_cases(c):
     rng = c.rng
     cs = []
-    # the witness of the TinyMatrixInvert defect (user eps above the default)
+    # user eps above the default: the factorisation meets a pivot below eps (TinyMatrixInvert must raise)
     cs.append(Case("invw", "I", 3, [1, 0, 0, 0, 1e-20, 1, 0, 1e-20, 2], [0, 0, 0], 1e-10, "near-null pivot below the user eps"))
     cs.append(Case("invw2", "I", 3, [1, 0, 0, 0, 0.25, 1, 0, 0.25, 2], [0, 0, 0], 0.5, "well-conditioned matrix, pivot 0.25 below the user eps 0.5"))
     cs.append(Case("invw0", "I", 3, [1, 0, 0, 0, 1e-20, 1, 0, 1e-20, 2], [0, 0, 0], DEFAULT_EPS, "same matrix, default eps"))
-    per = c.pick(6, 40)
+    reps = c.pick(1, 3)
     t = 0
-    for n in range(1, 9):
-        for rep in range(per):
-            fam = ["int", "diagdom", "zerodiag", "hilbert", "zerocol", "zerorow", "blocksing", "dyadic"][rep % 8]
-            a = [[float(rng.randint(-4, 4)) for _ in range(n)] for _ in range(n)]
-            strict = True
-            if fam == "diagdom":
-                for i in range(n):
-                    a[i][i] = float(4 * n + rng.randint(1, 3)) * rng.choice([-1, 1])
-            elif fam == "zerodiag":
-                for i in range(n):
-                    a[i][i] = 0.0
-            elif fam == "hilbert":
-                if n > 5:
+    for n in list(range(1, 9)) + c.pick([], [10, 12]):   # 10, 12: the run-time sized solvers only (LUSolve, QRDecomp)
+        for rep in range(reps):
+            for fam in FAMILIES:
+                a = gen_matrix(rng, fam, n)
+                if a is None:
                     continue
-                a = [[1.0 / (i + j + 1) for j in range(n)] for i in range(n)]
-            elif fam == "zerocol":
-                k = rng.randrange(n)
-                for i in range(n):
-                    a[i][k] = 0.0
-            elif fam == "zerorow":
-                k = rng.randrange(n)
-                a[k] = [0.0] * n
-            elif fam == "blocksing":
-                if n < 2:
-                    continue
-                a = [[0.0] * n for _ in range(n)]
-                for i in range(n):
-                    a[i][i] = 1.0
-                a[0][0], a[0][1], a[1][0], a[1][1] = 1.0, 2.0, 2.0, 4.0
-            elif fam == "dyadic":
-                a = [[rng.randint(-8, 8) / 4.0 for _ in range(n)] for _ in range(n)]
-            b = [float(rng.randint(-5, 5)) for _ in range(n)]
-            flat = [x for row in a for x in row]
-            for kind in ("L", "T", "I"):
-                if kind == "I" and n > 6:
-                    continue
-                t += 1
-                cs.append(Case("c%d" % t, kind, n, flat, b, DEFAULT_EPS, fam, strict))
+                b = [float(rng.randint(-5, 5)) for _ in range(n)]
+                b2 = [float(rng.randint(-5, 5)) for _ in range(2 * n)]
+                flat = [x for row in a for x in row]
+                for kind in ("L", "T", "I", "M", "Q"):
+                    if (kind == "I" and n > 6) or (n > 8 and kind not in ("L", "Q")):
+                        continue
+                    t += 1
+                    cs.append(Case("c%d" % t, kind, n, flat, b2 if kind == "M" else b, DEFAULT_EPS, fam))
     return cs
-
-
-def parse_term(txt):
-    toks = re.findall(r"[\[\]();,]|[^\s\[\]();,]+", txt)
-    pos = [0]
-
-    def term():
-        t = toks[pos[0]]
-        pos[0] += 1
-        if t == "[" or t == "(":
-            close = "]" if t == "[" else ")"
-            items = []
-            while toks[pos[0]] != close:
-                items.append(term())
-                if toks[pos[0]] in (";", ","):
-                    pos[0] += 1
-            pos[0] += 1
-            return items if t == "[" else tuple(items)
-        return t
-    return term()
-
-
-def parse_q(txt):
-    """'3', '-3', '1 # 2' sequences inside a printed list of Q: items separated by ';' (parse_term splits on spaces)"""
-    return txt
 
 
 def parse_coq(out):
@@ -123,43 +140,129 @@ def parse_coq(out):
             xs = []
             if mm.group(3).strip():
                 for it in mm.group(3).split(";"):
-                    it = it.strip()
-                    if "#" in it:
-                        nu, de = it.split("#")
-                        xs.append(Fraction(int(nu.strip()), int(de.strip())))
-                    else:
-                        xs.append(Fraction(int(it)))
+                    nu, de = it.strip().strip("()").split(",")
+                    xs.append(Fraction(int(nu.strip()), int(de.strip())))
             res.append((mm.group(1) == "true", mm.group(2) == "true", xs))
     return res
 
 
+def parse_perms(out):
+    """lists of nat printed by `Eval vm_compute in [run_perm ...; ...]` (blocks of type list (list nat))"""
+    res = []
+    for m in re.finditer(r"^\s+= (.*?)^\s+: ([^\n]*)$", out, flags=re.S | re.M):
+        if m.group(2).strip() != "list (list nat)":
+            continue
+        body = " ".join(m.group(1).split()).replace("%nat", "")
+        for mm in re.finditer(r"\[([0-9; ]*)\]", body[1:-1]):
+            res.append([int(x) for x in mm.group(1).split(";") if x.strip()])
+    return res
+
+
 def residual_ok(case, x):
-    """independent statement: the returned doubles satisfy A x = b (resp. A X = I) up to 1e-9 (||A|| ||x|| + ||b||); exact rational evaluation"""
+    """independent statement: the returned doubles satisfy A x = b (resp. A X = B, A X = I) up to 1e-7 (||A|| ||x|| + ||b|| + 1);
+    exact rational evaluation"""
     n = case.n
     A = [[Fraction(float(case.a[n * i + j])) for j in range(n)] for i in range(n)]
     if any(not math.isfinite(v) for v in x):
         return False, float("inf")
     nA = max(sum(abs(v) for v in row) for row in A)
-    if case.kind == "I":
-        X = [[Fraction(x[n * i + j]) for j in range(n)] for i in range(n)]
+    if case.kind in ("I", "M"):
+        m = n if case.kind == "I" else 2
+        if len(x) != n * m:
+            return False, float("inf")
+        X = [[Fraction(x[m * i + j]) for j in range(m)] for i in range(n)]
+        B = [[Fraction(1 if i == j else 0) for j in range(n)] for i in range(n)] if case.kind == "I" else \
+            [[Fraction(float(case.b[2 * i + k])) for k in range(2)] for i in range(n)]
         nX = max(sum(abs(v) for v in row) for row in X)
+        nB = max(sum(abs(v) for v in row) for row in B)
         worst = Fraction(0)
         for i in range(n):
-            for j in range(n):
-                r = sum(A[i][k] * X[k][j] for k in range(n)) - (1 if i == j else 0)
-                worst = max(worst, abs(r))
-        return worst <= Fraction(1, 10 ** 7) * (nA * nX + 1), float(worst)
+            for j in range(m):
+                worst = max(worst, abs(sum(A[i][k] * X[k][j] for k in range(n)) - B[i][j]))
+        return worst <= Fraction(1, 10 ** 7) * (nA * nX + nB + 1), float(worst)
+    if len(x) != n:
+        return False, float("inf")
     xs = [Fraction(v) for v in x]
     bs = [Fraction(float(v)) for v in case.b]
     worst = max(abs(sum(A[i][k] * xs[k] for k in range(n)) - bs[i]) for i in range(n))
     return worst <= Fraction(1, 10 ** 7) * (nA * max(abs(v) for v in xs) + max(abs(v) for v in bs) + 1), float(worst)
 
 
+def run_model(c, calls, mcases):
+    """the Qc instance of the proved model, vm_compute; calls = distinct model calls"""
+    txt = ("From Coq Require Import ZArith QArith List.\nFrom C07 Require Import C07ModelQ.\nImport ListNotations.\nOpen Scope Z_scope.\n" +
+           "".join("Eval vm_compute in [\n%s].\n" % ";\n".join(calls[j:j + 200]) for j in range(0, len(calls), 200)) +
+           "Close Scope Z_scope.\n" +
+           "".join("Eval vm_compute in [\n%s].\n" % ";\n".join("(run_perm %d%%nat %s %s)" % (cs.n, qz(Fraction(float(cs.eps))), cs.rows())
+                                                                for cs in mcases[j:j + 200]) for j in range(0, len(mcases), 200)))
+    return c.coq_eval(["C07Model.v", "C07ModelQ.v"], txt, timeout=c.pick(900, 3000))
+
+
+FIRST_FAIL = {}   # solver kind -> (key, what, replay) of the first concrete failing input reported by compare()
+
+
+def fail(c, kind, key, what, replay, found=True):
+    if found and kind not in FIRST_FAIL:
+        FIRST_FAIL[kind] = (key, what, replay)
+    c.report(key, what, replay, found)
+
+
+def compare(c, cases, obs, mres):
+    nround = 0
+    for cs, m in zip(cases, mres):
+        ok, x = obs[cs.id]
+        mok, mexact, mx = m
+        c.count(1, cs.id, cs.n >= 2)
+        if len(c.coverage["samples"]) < 8 and cs.n >= 4 and cs.kind in ("M", "Q") and ok and cs.family in ("permdom", "lastrow", "int"):
+            c.sample({"case": cs.id, "solver": cs.kind, "N": cs.n, "family": cs.family, "x": x[:4], "model_x": [str(v) for v in mx[:4]]})
+        if not mexact:
+            c.report("model:" + cs.id, "the exact-rational model returned a solution that does not satisfy A x = b (model defect; contradicts the Coq theorem)", cs.json(), False)
+        structural = cs.family in STRUCT_SING[cs.kind]
+        if ok and not mok and not structural and not (cs.kind == "I" and cs.eps > DEFAULT_EPS):
+            # exactly singular by chance, elimination inexact in binary64: the tiny non-null pivot is an effect of rounding (out of scope)
+            nround += 1
+            continue
+        # independent property on the real code
+        if ok:
+            good, worst = residual_ok(cs, x)
+            if not good:
+                if cs.kind == "I" and cs.eps > DEFAULT_EPS and not mok:
+                    key = KEY_INV
+                else:
+                    key = "residual:%s:%s:%d:%s" % (cs.kind, cs.family, cs.n, cs.id)
+                fail(c, cs.kind, key, "%s on a %dx%d matrix (%s) returned without reporting failure a result whose residual is %.3g: A=%s b=%s eps=%g -> %s" % (
+                    SOLVER[cs.kind], cs.n, cs.n, cs.family, worst, cs.json()["A_row_major"], [float(v) for v in cs.b], cs.eps, x), cs.json(), True)
+        # correspondence with the model: verdict, and solution within tolerance
+        if ok != mok:
+            if cs.kind == "I" and cs.eps > DEFAULT_EPS and not mok and ok:
+                fail(c, cs.kind, KEY_INV, "TinyMatrixInvert<%d>::exe(A, eps=%g) returned normally although the factorisation met a pivot below eps (exact model: failure): A=%s -> %s" % (
+                    cs.n, cs.eps, cs.json()["A_row_major"], x), cs.json(), True)
+                continue
+            if cs.kind == "Q" and not ok and mok:
+                pass  # QR refused a regular matrix: reported below as a verdict difference
+            fail(c, cs.kind, "verdict:%s:%s:%d:%s" % (cs.kind, cs.family, cs.n, cs.id), "verdict differs: real code %s, exact model %s on A=%s b=%s (%s, N=%d, %s)" % (
+                "success" if ok else "failure", "success" if mok else "failure (exactly null pivot)", cs.json()["A_row_major"], [float(v) for v in cs.b],
+                SOLVER[cs.kind], cs.n, cs.family), cs.json(), not mok)
+        elif ok:
+            tol = 1e-6 if cs.family == "hilbert" else 1e-9
+            if cs.kind == "Q":
+                tol *= 10
+            scale = max([1] + [abs(v) for v in mx])
+            if len(x) != len(mx) or any(abs(Fraction(xv) - mv) > tol * scale for xv, mv in zip(x, mx)):
+                fail(c, cs.kind, "solution:%s:%s:%d:%s" % (cs.kind, cs.family, cs.n, cs.id), "%s: solution differs from the exact one (model on Qc): %s vs %s; A=%s b=%s" % (
+                    SOLVER[cs.kind], x, [float(v) for v in mx], cs.json()["A_row_major"], [float(v) for v in cs.b]), cs.json(), True)
+    if nround:
+        c.notes.append("%d cases skipped: exactly singular matrix (by chance, or zero row / singular block given to QR) whose reduction is inexact in binary64: the real code met a tiny non-null pivot (rounding; out of scope)" % nround)
+
+
 def main(c):
-    # ---------------- engine S
+    wd = os.path.join(c.work, "coq")
+    os.makedirs(wd, exist_ok=True)
+    # ---------------- engine S: decision trees regenerated from /repo
     tracer = c.cxx("trace", ["trace.cxx"], SUP)
-    gen = os.path.join(c.work, "coq", "C07_gen.v")
-    os.makedirs(os.path.dirname(gen), exist_ok=True)
+    gen = os.path.join(wd, "C07_gen.v")
+    genbs = os.path.join(wd, "C07_genbs.v")
+    genqr = os.path.join(wd, "C07_genqr.v")
     rc, out, err = c.run([tracer, "gen", gen, str(c.seed)])
     if rc != 0:
         c.report("trace", "tracer failed on /repo's solvers: " + err[-500:], {"stderr": err[-3000:]}, False)
@@ -169,11 +272,10 @@ def main(c):
             c.report("agree:" + l[:60], "traced decision tree and double instantiation disagree: " + l, {"line": l}, True)
         elif l.startswith("AGREE "):
             c.count(int(re.search(r"cases=(\d+)", l).group(1)))
-        elif l.startswith("LEAVES"):
-            c.notes.append(l)
-    c.trusted("engine S tracer (cxx/sym/sym.hxx path oracle + printer), g++ template instantiation of TinyMatrixSolve / LUDecomp with Sym",
-              "agreement Sym tree vs double instantiation on 400 seeded inputs per traced function (integers with ties/null pivots and reals), tolerance 1e-7 relative")
-    # ---------------- engine H + execution of the real code
+    c.notes.append("leaves: " + " ".join("%s=%s" % tuple(l.split()[1:3]) for l in out.splitlines() if l.startswith("LEAVES") and "_" not in l.split()[1]))
+    c.trusted("engine S tracer (cxx/sym/sym.hxx path oracle + printer), g++ template instantiation of TinyMatrixSolve / LUDecomp / TinyMatrixInvert / QRDecomp with Sym",
+              "agreement Sym tree vs double instantiation on 400 (100 for the per-permutation back substitutions) seeded inputs per traced function (integers with ties/null pivots and reals), tolerance 1e-7 relative")
+    # ---------------- the real code on rational matrices
     exe = c.cxx("driver", ["driver.cxx"], SUP)
     cases = gen_cases(c)
     inp = os.path.join(c.work, "cases.txt")
@@ -191,64 +293,102 @@ def main(c):
     if len(obs) != len(cases):
         c.report("run", "driver printed %d results for %d cases" % (len(obs), len(cases)), {}, False)
         return
-    txt = ("From Coq Require Import QArith List.\nFrom C07 Require Import C07Model.\nImport ListNotations.\nOpen Scope Q_scope.\n" +
-           "".join("Eval vm_compute in [\n%s].\n" % ";\n".join(cs.coq() for cs in cases[j:j + 200]) for j in range(0, len(cases), 200)))
-    rc, mout, err = c.coq_eval(["C07Model.v"], txt, timeout=240)
-    if rc != 0:
-        c.report("model-run", "model evaluation failed: " + err[-600:], {"stderr": err[-3000:]}, False)
-        return
-    mres = parse_coq(mout)
-    if len(mres) != len(cases):
-        c.report("model-run", "model printed %d results for %d cases" % (len(mres), len(cases)), {"stdout": mout[-1500:]}, False)
-        return
-    c.log("real code and exact-rational model ran on %d cases" % len(cases))
-    nmis = 0
-    for cs, m in zip(cases, mres):
-        ok, x = obs[cs.id]
-        mok, mexact, mx = m
-        c.count(1, cs.id, cs.n >= 2)
-        if len(c.coverage["samples"]) < 8 and cs.n >= 3 and cs.kind != "I" and ok:
-            c.sample({"case": cs.id, "solver": cs.kind, "N": cs.n, "family": cs.family, "x": x[:4], "model_x": [str(v) for v in mx[:4]]})
-        if not mexact:
-            c.report("model:" + cs.id, "the exact-rational model returned a solution that does not satisfy A x = b (model defect)", cs.json(), False)
-        # independent property on the real code
-        if ok:
-            good, worst = residual_ok(cs, x)
-            if not good:
-                if cs.kind == "I" and cs.eps > DEFAULT_EPS and not mok:
-                    key = KEY_INV
-                else:
-                    key = "residual:%s:%s:%d:%s" % (cs.kind, cs.family, cs.n, cs.id)
-                c.report(key, "%s on a %dx%d matrix (%s) returned without reporting failure a result whose residual is %.3g: A=%s b=%s eps=%g -> %s" % (
-                    cs.json()["solver"], cs.n, cs.n, cs.family, worst, cs.json()["A_row_major"], cs.json()["b"], cs.eps, x), cs.json(), True)
-        # correspondence with the model: verdict, and solution within tolerance
-        if ok != mok:
-            if cs.kind == "I" and cs.eps > DEFAULT_EPS and not mok and ok:
-                # decomp reported a pivot below the user eps but TinyMatrixInvert went on with the half-finished factorisation
-                c.report(KEY_INV, "TinyMatrixInvert<%d>::exe(A, eps=%g) returned normally although the factorisation met a pivot below eps (exact model: failure): A=%s -> %s" % (
-                    cs.n, cs.eps, cs.json()["A_row_major"], x), cs.json(), True)
-                continue
-            nmis += 1
-            c.report("verdict:%s:%s:%d:%s" % (cs.kind, cs.family, cs.n, cs.id), "verdict differs: real code %s, exact model %s on A=%s b=%s (%s, N=%d, %s)" % (
-                "success" if ok else "failure", "success" if mok else "failure (exactly null pivot)", cs.json()["A_row_major"], cs.json()["b"], cs.json()["solver"], cs.n, cs.family),
-                cs.json(), not mok)
-        elif ok and cs.kind != "I":
-            tol = 1e-6 if cs.family == "hilbert" else 1e-9
-            if any(abs(Fraction(xv) - mv) > tol * max(1, abs(mv)) for xv, mv in zip(x, mx)) or len(x) != len(mx):
-                nmis += 1
-                c.report("solution:%s:%s:%d:%s" % (cs.kind, cs.family, cs.n, cs.id), "solution differs from the exact model: %s vs %s" % (x, [float(v) for v in mx]), cs.json(), True)
-    c.coverage["traces_validated_against_impl"] = len(cases)
-    c.coverage["rule"] = ("sizes 1..8 x families {random small integers, diagonally dominant, zero diagonal (pivoting forced), Hilbert (N<=5), zero column, zero row, "
-                          "embedded singular 2x2 block, dyadic} x {LUSolve, TinyMatrixSolve<N>, TinyMatrixInvert<N<=6>}; verdict and solution compared with the Gallina model "
-                          "run on exact rationals; residual of the returned doubles evaluated exactly; non-trivial = N >= 2")
-    c.trusted("hand-written Gallina model coq/C07Model.v of LUDecomp + back substitution (general N), tied to the code by execution on rational matrices only (no theorem for general N)",
+    mcases = [cs for cs in cases if cs.kind == "M" and cs.n >= 4]
+    calls = sorted(set(cs.coq() for cs in cases))
+    # ---------------- Coq, 4 jobs at a time: prerequisites (spec, tactics, regenerated trees), then the proof groups; the model
+    # run (vm_compute on the Qc instance) followed by the general-N proofs goes on in parallel
+    results = []
+
+    def coq(files, timeout=1500):
+        r = c.coq(files, timeout)
+        results.append((files, r))
+        return r
+
+    jobs = [["C07ProofsInv.v", "Properties_C07Inv.v"],
+            ["C07ProofsQR.v", "Properties_C07QR.v"],
+            ["C07Proofs.v", "Properties_C07.v"],
+            ["C07ProofsBSa.v", "Properties_C07BS.v"]]
+    if not c.quick():
+        jobs.append(["C07ProofsBSb.v", "Properties_C07BSb.v"])
+        jobs.append(["C07ProofsBSv.v", "Properties_C07BSv.v"])
+    c.log("tracer and driver ran on %d cases; Coq (regenerated trees, model run, proof groups)" % len(cases))
+    with ThreadPoolExecutor(max_workers=4) as ex:
+        fa = [ex.submit(coq, ["C07Spec.v", "C07Tactics.v"]), ex.submit(coq, [gen]), ex.submit(coq, [genbs]), ex.submit(coq, [genqr])]
+
+        def model_job():
+            r = coq(["C07Model.v", "C07ModelQ.v"])
+            m = run_model(c, calls, mcases) if r.ok else None
+            c.log("model run done")
+            if r.ok and fa[0].result().ok:
+                coq(["C07LU.v", "C07Inst.v", "Properties_C07LU.v"])
+            return m
+
+        fm = ex.submit(model_job)
+        okA = all(f.result().ok for f in fa)
+        if okA:
+            fb = [ex.submit(coq, j) for j in jobs]
+            okB = [f.result().ok for f in fb]
+        mrun = fm.result()
+    if mrun is not None:
+        rc, mout, err = mrun
+        if rc != 0:
+            c.report("model-run", "model evaluation failed: " + err[-600:], {"stderr": err[-3000:]}, False)
+        else:
+            try:
+                ures = parse_coq(mout)
+                perms = parse_perms(mout)
+            except (ValueError, IndexError) as e:  # never an exception of the harness: reported as a broken model run
+                c.notes.append("unparsable model output: %r" % (e,))
+                ures, perms = [], []
+            if len(ures) != len(calls) or len(perms) != len(mcases):
+                c.report("model-run", "model printed %d results / %d permutations for %d / %d calls" % (len(ures), len(perms), len(calls), len(mcases)),
+                         {"stdout": mout[-1500:]}, False)
+            else:
+                bycall = dict(zip(calls, ures))
+                mres = [bycall[cs.coq()] for cs in cases]
+                c.log("real code and exact-rational model ran on %d cases" % len(cases))
+                compare(c, cases, obs, mres)
+                moved = [cs for cs, p in zip(mcases, perms) if p and p[-1] != cs.n - 1]
+                c.coverage["matrix_rhs_N_ge_4_cases"] = len(mcases)
+                c.coverage["matrix_rhs_N_ge_4_last_row_moved"] = len(moved)
+                c.coverage["traces_validated_against_impl"] = len(cases)
+                if len(moved) < 5:  # the family `lastrow` alone gives one per size 4..8
+                    c.report("coverage:last-row", "only %d matrix right-hand side cases with N >= 4 have a factorisation that moves the last row (harness defect)" % len(moved), {}, False)
+    c.coverage["rule"] = ("sizes 1..8 (thorough: also 10, 12 for LUSolve and QRDecomp) x families {random small integers, diagonally dominant, zero diagonal (pivoting forced), Hilbert (N<=5), zero column, zero row, "
+                          "embedded singular 2x2 block, dyadic, shuffled diagonally dominant rows (every row moves), cyclically shifted rows (last row moves)} x "
+                          "{LUSolve, TinyMatrixSolve<N> vector rhs, TinyMatrixSolve<N> tmatrix<N,2> rhs, TinyMatrixInvert<N<=6>, QRDecomp}; verdict and solution compared "
+                          "with the Qc instance of the proved Gallina model; residual of the returned doubles evaluated exactly; non-trivial = N >= 2")
+    c.trusted("hand-written Gallina model coq/C07Model.v of LUDecomp + back substitution + TinyMatrixInvert (proved correct for every N in C07LU.v), tied to the C++ by execution on rational matrices only",
               "driver props/C07/driver.cxx, Python differ and exact residual evaluation (fractions)")
-    res = c.coq([gen, "C07Spec.v", "C07Proofs.v", "Properties_C07.v"], timeout=900)
-    if not res.ok:
+    # obligations of property files that were not reached because a proof file broke before
+    for files, r in results:
+        reached = [x[0] for x in r.files]
+        for fn in files:
+            if os.path.basename(fn).startswith("Properties") and os.path.basename(fn) not in reached:
+                txt = open(os.path.join(c.dir, "coq", fn)).read()
+                c.coverage["obligations"] += len(re.findall(r"^Theorem ", txt, flags=re.M))
+    broken = [(fs, r) for fs, r in results if not r.ok]
+    if broken:
         if any(v[3] for v in c.violations):
-            c.notes.append("proof obligations failed: %s; concrete failing inputs reported above" % [f[2] for f in res.failed])
-        c.coq_failures(res)
-    c.assumptions.append("theorems are over the reals (no rounding); eps > 0; Some/None = returned true / reported failure; QR decomposition is not covered")
+            c.notes.append("proof obligations failed: %s; concrete failing inputs reported above" % [f[:3] for _, r in broken for f in r.failed])
+        kinds_of = {"C07ProofsBSa.v": "M", "C07ProofsBSb.v": "M", "Properties_C07BS.v": "M", "Properties_C07BSb.v": "M", "C07ProofsBSv.v": "TL", "Properties_C07BSv.v": "TL",
+                    "C07ProofsInv.v": "I", "Properties_C07Inv.v": "I", "C07ProofsQR.v": "Q", "Properties_C07QR.v": "Q",
+                    "C07Proofs.v": "TML", "Properties_C07.v": "TML", "C07_gen.v": "TMLI", "C07_genbs.v": "MTL", "C07_genqr.v": "Q"}
+
+        def search(failure):
+            # the concrete failing input of the broken obligation: the first input on which the real solver concerned by the
+            # obligation violated the independent statement (exact residual / verdict / exact solution) in this run
+            f, line, thm, msg = failure
+            for k in kinds_of.get(f, "MTLIQ"):
+                if k in FIRST_FAIL:
+                    key, what, replay = FIRST_FAIL[k]
+                    return ("coq:%s:%s" % (f, thm or line), "proof obligation %s in %s no longer checks; concrete failing input: %s" % (thm or "?", f, what),
+                            dict(replay, broken_obligation={"file": f, "theorem": thm, "message": msg[-1500:]}))
+            return None
+
+        for _, r in broken:
+            c.coq_failures(r, search)
+    c.assumptions.append("theorems are over exact fields (reals / rationals: no rounding); eps > 0; Some/None = returned true / reported failure (false or exception)")
 
 
 guarded_main("C07", main)
